@@ -40,6 +40,8 @@ type Task struct {
 	// acquisition by this task (linearisation points for oracles).
 	AcqSeq  uint64
 	AcqCnt  uint64
+	RecAcq  bool     // record every acquisition's sequence number in AcqLog
+	AcqLog  []uint64
 	Local   map[string]any
 	started bool
 }
@@ -227,6 +229,15 @@ func (t *Task) Block(site string, pred func() bool) {
 		t.S.Stat("nopark_block", 1)
 	}
 	t.park(pred, site)
+}
+
+// Acquired is called by simsync after every lock acquisition.
+func (t *Task) Acquired() {
+	t.AcqCnt++
+	t.AcqSeq = t.S.Seq()
+	if t.RecAcq {
+		t.AcqLog = append(t.AcqLog, t.AcqSeq)
+	}
 }
 
 // NoPark / Park bracket a region in which Yield does not park (code that holds
